@@ -160,8 +160,7 @@ def gen_ops(info, tier, r):
     return ops
 
 
-def run(pid, tier):
-    rep = vlib.Report(pid, tier)
+def _run(rep, pid, tier):
     info = translate(rep)
     if info is None:
         return rep.finish()
@@ -211,7 +210,9 @@ def run(pid, tier):
         stats["by_function"][which] = stats["by_function"].get(which, 0) + 1
         cls = classify(info, which, i)
         stats["classes"][which + ":" + cls] = stats["classes"].get(which + ":" + cls, 0) + 1
-        res = io.split()[0]
+        res = io.split()[0] if io.split() else "EMPTY"
+        if res not in ("str", "null", "ptr", "CRASH"):
+            res = "GARBLED"
         stats["results"][which + ":" + res] = stats["results"].get(which + ":" + res, 0) + 1
         if cls != "above" and cls != "negative" and cls != "large":
             nontrivial.add((which, i))
@@ -220,10 +221,14 @@ def run(pid, tier):
             fails.append((k, "enumerator-outside-table" if exp != "null" else "unchecked-index", "%s(%d) aborts under the sanitizers (%s); the property demands %s" % (
                 FUNCS[which][0], i, io[6:], "the name " + exp[4:] if exp != "null" else "the documented NULL")))
         elif io != exp:
+            what = "a non-NULL pointer that is not a name (%s)" % io[4:] if res == "ptr" else "'%s'" % io
             fails.append((k, "wrong-name" if exp != "null" else "not-null",
-                          "%s(%d) returned '%s'; the property demands '%s'" % (FUNCS[which][0], i, io, exp)))
-        # correspondence: the model's `oob` is the implementation's sanitizer abort
-        canon = "oob" if io.startswith("CRASH") else io
+                          "%s(%d) returned %s; the property demands %s" % (
+                              FUNCS[which][0], i, what, "'%s'" % exp if exp != "null" else "the documented NULL")))
+        # correspondence: the model's `oob` is the implementation's sanitizer abort, or whatever lies outside the
+        # table (a garbage pointer, or by accident a neighbouring string)
+        # table: undefined behaviour, so any answer of the implementation corresponds to the model's `oob`
+        canon = "oob" if (io.startswith("CRASH") or res in ("ptr", "GARBLED", "EMPTY") or mo == "oob") else io
         if canon != mo:
             diverge.append((k, io, mo))
 
@@ -261,6 +266,24 @@ def run(pid, tier):
     if not proved and not fails and not diverge:
         vlib.proof_failure(rep, "\n".join(t for t, ok in rep.obligations.items() if not ok))
     return rep.finish()
+
+
+def guarded_run(body, pid, tier):
+    """no Python exception escapes a check: an unexpected situation in the machinery is reported as a failed
+    obligation (no-failing-input-found) with the traceback as replay"""
+    rep = vlib.Report(pid, tier)
+    try:
+        return body(rep, pid, tier)
+    except Exception:                                   # noqa: BLE001 - deliberate catch-all at the top level
+        import traceback
+        rep.build_log = traceback.format_exc()
+        vlib.proof_failure(rep, "check machinery raised an exception (tools/%s); the tie could not be completed" % (
+            os.path.basename(traceback.extract_tb(sys.exc_info()[2])[-1].filename)))
+        return rep.finish()
+
+
+def run(pid, tier):
+    return guarded_run(_run, pid, tier)
 
 
 if __name__ == "__main__":
